@@ -32,6 +32,8 @@ type Seam struct {
 	To   string `json:"to"`
 	// Func restricts the rewrite to the body of this function/method (optional)
 	Func string `json:"func,omitempty"`
+	// Optional seams may match no call site (e.g. an alternative API the code might use)
+	Optional bool `json:"optional,omitempty"`
 }
 
 type HarnessSpec struct {
@@ -160,8 +162,12 @@ func rewriteSeams(path string, src []byte, seams []Seam) ([]byte, []string, erro
 			case *ast.SelectorExpr:
 				if strings.HasPrefix(s.Call, ".") {
 					if fun.Sel.Name == s.Call[1:] {
-						// x.M(args) -> To(x, args)
-						xs := string(src[fset.Position(fun.X.Pos()).Offset:fset.Position(fun.X.End()).Offset])
+						// x.M(args) -> To(x, args); x.(T).M(args) -> To(x, args): the stub decides by itself
+						recv := fun.X
+						if ta, ok := recv.(*ast.TypeAssertExpr); ok && ta.Type != nil {
+							recv = ta.X
+						}
+						xs := string(src[fset.Position(recv.Pos()).Offset:fset.Position(recv.End()).Offset])
 						sep := ", "
 						if len(call.Args) == 0 {
 							sep = ""
@@ -186,6 +192,9 @@ func rewriteSeams(path string, src []byte, seams []Seam) ([]byte, []string, erro
 		return true
 	})
 	for si, s := range seams {
+		if counts[si] == 0 && s.Optional {
+			continue
+		}
 		if counts[si] == 0 {
 			return nil, nil, fmt.Errorf("seam %s in %s matched no call site (source changed?)", s.Call, s.File)
 		}
